@@ -121,6 +121,11 @@ def run_case(c):
         maxterm = max(maxterm, np.abs(T).max())
         tolz = max((1e-9 if c["method"] == "wang" else 1e-7) * max(np.abs(T).max(), dds * 1e-3), 1e-13 * np.abs(D0).max())  # floor: round-off of D itself
         for sfac in (1.0, 1e-3, 1e3):
+            if np.linalg.norm(n_cart * sfac) < 1e-4:
+                # phonopy takes a direction shorter than Q_DIRECTION_TOLERANCE = 1e-5 (Cartesian, 1/Angstrom) as "no direction" - its documented
+                # notion of a zero vector; a random direction that happens to be short, scaled by 1e-3, falls below it (thorough sweep, seed 0)
+                obs["n_gamma_dir_below_zero_tolerance"] = obs.get("n_gamma_dir_below_zero_tolerance", 0) + 1
+                continue
             dm.run([0, 0, 0], q_direction=relayout(qd * sfac, lrng)[0])
             D = np.array(dm.dynamical_matrix)
             e = float(np.abs(D - D0 - T).max())
@@ -141,7 +146,7 @@ def run_case(c):
     comm = [q for q in commensurate_q(M) if np.abs(q - np.rint(q)).max() > 1e-8]
     for q in comm[:24]:
         if c["method"] == "gonze":
-            qq, nties = nacgen.bz_reduce(q, pr.cell)
+            qq, nties = nacgen.bz_reduce(q, pr.cell, near=True)
             tol = 1e-8 * max(fscale, dds) if nties == 1 else nacgen.gl_offzone_tolerance(pr, {"born": Z, "dielectric": eps, "factor": f}, fscale)[0]
             obs["gonze_unique_bz" if nties == 1 else "gonze_tied_bz"] = obs.get("gonze_unique_bz" if nties == 1 else "gonze_tied_bz", 0) + 1
         else:
